@@ -32,6 +32,9 @@ META = dict(
         "of partial slice application for all regex lists"
     ),
 )
+META["explanation"] += (
+    " Added after the independent seeding rounds 2-3: " "R3 identifies the masks by data-flow role (allocated+filled = base, clone only sub()-ed = residual, clone only trimmed = trimmed), not by variable names. R4 containment operands of check_subsume; R1 also requires subsume_possible to answer true only after the full scan of the state's lexemes."
+)
 
 
 def subsume_operands(ctx, R):
